@@ -251,6 +251,60 @@ func Run(c *engine.Ctx) {
 	enums(c)
 	attributes(c)
 	zones(c)
+	stringContents(c)
+}
+
+// stringContents: every text attribute the statement lists x the near-string menu (strings that coincide
+// under a plausible normalisation or interpretation: printf verbs, percent escapes, case, blanks, unicode
+// composition, numeric and path spellings): what is written is what is read back, character for character.
+func stringContents(c *engine.Ctx) {
+	c.Group("string-contents")
+	type slot struct {
+		Name string
+		Set  func(p, f *sbom.Node, v string)
+	}
+	slots := []slot{
+		{"pkg.name", func(p, f *sbom.Node, v string) { p.Name = v }},
+		{"pkg.version", func(p, f *sbom.Node, v string) { p.Version = v }},
+		{"pkg.url_home", func(p, f *sbom.Node, v string) { p.UrlHome = v }},
+		{"pkg.license_comments", func(p, f *sbom.Node, v string) { p.LicenseComments = v }},
+		{"pkg.copyright", func(p, f *sbom.Node, v string) { p.Copyright = v }},
+		{"file.name", func(p, f *sbom.Node, v string) { f.Name = v }},
+		{"file.copyright", func(p, f *sbom.Node, v string) { f.Copyright = v }},
+		{"file.license_comments", func(p, f *sbom.Node, v string) { f.LicenseComments = v }},
+		{"pkg.extref.url", func(p, f *sbom.Node, v string) {
+			p.ExternalReferences = []*sbom.ExternalReference{{Type: sbom.ExternalReference_NPM, Url: "https://r/" + v, Comment: "c"}}
+		}},
+		{"pkg.extref.comment", func(p, f *sbom.Node, v string) {
+			p.ExternalReferences = []*sbom.ExternalReference{{Type: sbom.ExternalReference_NPM, Url: "https://r/x", Comment: v}}
+		}},
+		{"pkg.purl", func(p, f *sbom.Node, v string) { p.Identifiers = map[int32]string{int32(sbom.SoftwareIdentifierType_PURL): "pkg:generic/" + v} }},
+		{"pkg.hash", func(p, f *sbom.Node, v string) { p.Hashes = map[int32]string{int32(sbom.HashAlgorithm_SHA256): v} }},
+	}
+	var ms []string
+	for _, s := range gen.NearStrings() {
+		if strings.TrimSpace(s) == s && s != "" {
+			ms = append(ms, s) // surrounding blanks are the writer's deliberate trimming (copyright) and covered by the attribute menu
+		}
+	}
+	c.Bound("string-contents", fmt.Sprintf("%d text attributes x %d near-strings", len(slots), len(ms)))
+	for si := range slots {
+		for mi := range ms {
+			si, mi := si, mi
+			c.Case(func() any { return map[string]string{"attribute": slots[si].Name, "value": ms[mi]} }, func(t *engine.T) *engine.Violation {
+				p := &sbom.Node{Id: "a", Name: "pkg"}
+				f := &sbom.Node{Id: "b-1", Name: "file", Type: sbom.Node_FILE}
+				slots[si].Set(p, f, ms[mi])
+				nl := &sbom.NodeList{Nodes: []*sbom.Node{p, f}, Edges: []*sbom.Edge{{From: "a", Type: tc, To: []string{"b-1"}}}, RootElements: []string{"a"}}
+				if v := RoundTrip(t, docOf(nl), 2); v != nil {
+					return v
+				}
+				t.State("str:" + slots[si].Name + ms[mi])
+				t.Outcome("string-ok")
+				return nil
+			})
+		}
+	}
 }
 
 // zones: the process-local time zone is an environment answer; every single-deviation document
